@@ -87,6 +87,78 @@ type TableSpec struct {
 	// PKReversed: the PRIMARY KEY clause names the key columns in the reverse of their column order
 	// (PRIMARY KEY (k2, k1) on columns k1, k2); PK itself stays in column order
 	PKReversed bool `json:"pk_reversed,omitempty"`
+	// BigRows: that many further rows (ids from BigBase upwards, other columns at a fixed value per type) are
+	// loaded after the listed ones; only for key shape "int". They are what a large statement works on.
+	BigRows int `json:"big_rows,omitempty"`
+}
+
+// BigBase is the first id of the bulk rows of a table with BigRows.
+const BigBase = 20000
+
+func bulkLit(c ColSpec) Lit {
+	switch c.Base {
+	case "INT", "BIGINT", "TINYINT", "SMALLINT":
+		return Lit{Kind: "int", I: 1}
+	case "DECIMAL", "DOUBLE", "FLOAT":
+		return Lit{Kind: "float", F: 1.5}
+	case "DATETIME", "DATE":
+		return Lit{Kind: "time", S: "2020-01-01T00:00:00Z"}
+	case "VARBINARY", "BLOB":
+		return Lit{Kind: "bytes", B: []byte("b")}
+	}
+	return Lit{Kind: "str", S: "v"}
+}
+
+// BigInserts renders the INSERT statements (500 rows each) that load the bulk rows.
+func (t TableSpec) BigInserts(name string) []string {
+	var out []string
+	for lo := 0; lo < t.BigRows; lo += 500 {
+		var rows []string
+		for i := lo; i < lo+500 && i < t.BigRows; i++ {
+			vs := []string{fmt.Sprint(BigBase + i)}
+			for _, c := range t.Cols[1:] {
+				vs = append(vs, bulkLit(c).SQL())
+			}
+			rows = append(rows, "("+strings.Join(vs, ", ")+")")
+		}
+		out = append(out, "INSERT INTO "+name+" VALUES "+strings.Join(rows, ", "))
+	}
+	return out
+}
+
+// BigStmt is a statement over all bulk rows of table ti: update | delete | insert (a multi-row INSERT of n new rows).
+func BigStmt(t *rapid.T, tables []TableSpec, ti int, kind string, n int) Stmt {
+	tb := tables[ti]
+	tn := fmt.Sprintf("{T%d}", ti)
+	switch kind {
+	case "delete":
+		return Stmt{Kind: "delete", Table: ti, SQL: fmt.Sprintf("DELETE FROM %s WHERE id >= %d", tn, BigBase), Where: "range", Classes: []string{"large-statement"}}
+	case "insert":
+		var rows []string
+		for i := 0; i < n; i++ {
+			vs := []string{fmt.Sprint(BigBase + 100000 + i)}
+			for _, c := range tb.Cols[1:] {
+				vs = append(vs, bulkLit(c).SQL())
+			}
+			rows = append(rows, "("+strings.Join(vs, ", ")+")")
+		}
+		return Stmt{Kind: "insert", Table: ti, SQL: "INSERT INTO " + tn + " VALUES " + strings.Join(rows, ", "), Classes: []string{"large-statement", "multi-row"}}
+	}
+	c := tb.Cols[1]
+	v := bulkLit(c)
+	switch v.Kind {
+	case "int":
+		v.I = 2
+	case "float":
+		v.F = 2.5
+	case "str":
+		v.S = "w"
+	case "bytes":
+		v.B = []byte("c")
+	case "time":
+		v.S = strings.Replace(v.S, "2020", "2021", 1)
+	}
+	return Stmt{Kind: "update", Table: ti, SQL: fmt.Sprintf("UPDATE %s SET %s = %s WHERE id >= %d", tn, Q(c.Name), v.SQL(), BigBase), SetCols: []string{c.Name}, Where: "range", Classes: []string{"large-statement"}}
 }
 
 // reservedNames are column names that are reserved words: they are legal only back-quoted.
